@@ -523,6 +523,13 @@ def shard(seed, idx, n, tier):
         gpg_verify_case(rng, res)
     run_record_cases(rng, res, n)
     sign_match_cases(rng, res, n)
+    # status 0 stands for the library call the command line describes (harness/clicall.py): a usage error makes none
+    from harness import clicall
+    for _ in range(max(2, n // 2)):
+        for t in ("run", "record_start", "record_stop"):
+            clicall.one_case(rng, res, t)
+        for t in ("match_products", "verify"):
+            clicall.one_other(rng, res, t)
     return res
 
 
